@@ -188,6 +188,7 @@ package ergo
 //@ func buildSetEvents
 //@   requires [task] task != nil
 //@   requires [updates] updates != nil
+//@   requires [epic-no-state] task.IsEpic ==> !has(updates, "state")
 //@   requires [callback:bodyResolver] res1 == nil ==> res0 == arg0
 //@   canary   [success-two-events] !(err == nil && len(ret0) == 2)
 //@   canary   [success-one-event] !(err == nil && len(ret0) == 1)
@@ -199,9 +200,15 @@ package ergo
 //@        (effState(ret0, id, task.State) == task.State || allowed(task.State, effState(ret0, id, task.State)))
 //@   ensures  [claim-inv]      err == nil && !task.IsEpic && validState(task.State) && claimInv(task.State, task.ClaimedBy) ==>
 //@        claimInv(effState(ret0, id, task.State), effClaim(ret0, id, task.ClaimedBy))
+//@   ensures  [epic-untouched] err == nil && task.IsEpic ==>
+//@        effState(ret0, id, task.State) == task.State && effClaim(ret0, id, task.ClaimedBy) == task.ClaimedBy
+//@   ensures  [fresh] ret0 == nil || fresh(ret0)
+//@   ensures  [epic-no-epic] err == nil && task.IsEpic ==> !has(updates, "epic")
 //@   modifies nothing
 //@ loop 0 range updates
 //@   invariant [copy] forall k string :: has(remainingUpdates,k) <==> visited(k)
+//@   invariant [visited-in-updates] forall k string :: visited(k) ==> has(updates,k)
+//@   invariant [distinct] remainingUpdates != updates
 //@   invariant [copy-val] forall k string :: visited(k) ==> remainingUpdates[k] == updates[k]
 
 // ---- replay (the step relation; C06, C07, C09, C12, C14, C20) ----
@@ -235,8 +242,8 @@ package ergo
 //@        old(has(graph.Deps, f) && has(graph.Deps[f], x)) && f != id && x != id ==> has(graph.Deps, f) && has(graph.Deps[f], x))
 //@   ensures [wf-kept] graph != nil ==> wfMaps(graph) && wfDeps(graph)
 //@   ensures [inner-frame] forall m map[string]struct{} :: (forall f string :: old(has(graph.Deps, f)) ==> old(graph.Deps[f]) != m) ==> unchangedMap(m)
-//@   modifies map[string]*Task at graph.Tasks, map[string]*TaskMeta at graph.Meta, map[string]TombstoneInfo at graph.Tombstones,
-//@            map[string]map[string]struct{} at graph.Deps, map[string]struct{}
+//@   modifies map[string]*Task at graph.Tasks, map[string]*TaskMeta at graph.Meta, map[string]TombstoneInfo at graph.Tombstones
+//@   modifies map[string]map[string]struct{} at graph.Deps, map[string]struct{}
 //@ loop 0 range graph.Deps
 //@   invariant [visited-clean] forall f string :: visited(f) && has(graph.Deps, f) ==> !has(graph.Deps[f], id)
 //@   invariant [outer-shrinks] forall f string :: has(graph.Deps, f) ==> old(has(graph.Deps, f)) && f != id && graph.Deps[f] == old(graph.Deps[f])
@@ -299,3 +306,553 @@ package ergo
 //@   invariant [deps-kept] forall f string :: has(graph.Deps, f) ==> sameMapAsEntry(graph.Deps[f])
 //@ loop 3 range graph.Tasks
 //@   invariant [fresh] freshGraph(graph)
+
+// ---- lock protocol as ghost state (C01, C02, C10) ----
+// lk: 0 = not held, 1 = shared, 2 = exclusive (the values of LOCK_SH and LOCK_EX).
+// epoch counts successful lock acquisitions; readEpoch is the epoch in which the log was last read;
+// logv is a version counter of the log file content (every successful write primitive bumps it);
+// appended is the slice handed to the last successful appendEvents; commits counts successful write primitives.
+//@ ghost lk int
+//@ ghost epoch int
+//@ ghost blocking bool
+//@ ghost readEpoch int
+//@ ghost logv int
+//@ ghost appended []Event
+//@ ghost commits int
+//@ ghost fsWrites int
+
+//@ func ensureFileExists
+//@   ensures [true] true
+//@   modifies ghost fsWrites
+
+//@ func withLock
+//@   requires [unlocked] lk == 0
+//@   requires [mode] lockType == 2 || lockType == 1
+//@   callpre  [held] lk == lockType && epoch == old(epoch) + 1
+//@   ensures  [released] lk == 0
+//@   ensures  [ret] called ==> ret == fnret
+//@   ensures  [busy-no-call] !called ==> ret != nil
+//@   ensures  [busy-epoch] !called ==> epoch == old(epoch)
+//@   ensures  [epoch] called ==> epoch == old(epoch) + 1
+//@   ensures  [never-blocks] blocking == old(blocking)
+//@   modifies ghost lk, ghost epoch, ghost blocking, ghost fsWrites
+
+// Storage primitives. Their bodies are file-system code; until the storage layer is under contract
+// (see the C03/C04 section) these contracts are ASSUMED and listed as such in every evidence file.
+//@ func getEventsPath
+//@   trusted chooses plans.jsonl / events.jsonl by os.Stat; no effect on ghost state
+//@   ensures [true] true
+//@   modifies nothing
+//@ func ergoDir
+//@   trusted directory discovery (os.Getwd, os.Stat, filepath); no effect on ghost state
+//@   ensures [true] true
+//@   modifies nothing
+//@ func readEvents
+//@   trusted reads and parses the log file; records the lock epoch in which the read happened
+//@   ensures [epoch] readEpoch == epoch
+//@   ensures [fresh] ret0 == nil || fresh(ret0)
+//@   modifies ghost readEpoch
+//@ func appendEvents
+//@   trusted appends one JSON line per event with O_APPEND; I/O faults excluded (a failing call is assumed to have written nothing)
+//@   requires [ex] lk == 2
+//@   requires [same-epoch] readEpoch == epoch
+//@   ensures [ok] ret == nil ==> logv == old(logv) + 1 && commits == old(commits) + 1 && appended == events
+//@   ensures [fail] ret != nil ==> logv == old(logv) && commits == old(commits) && appended == old(appended)
+//@   modifies ghost logv, ghost commits, ghost appended
+
+//@ func loadGraph
+//@   ensures [wf] err == nil ==> wfMaps(ret0) && wfDeps(ret0) && wfTasks(ret0) && tombExcluded(ret0)
+//@   ensures [epoch] readEpoch == epoch
+//@   ensures [nil-on-error] err != nil ==> ret0 == nil
+//@   modifies ghost readEpoch
+
+//@ func RunClaimOldestReady$1
+//@   option elems-index
+//@   requires [ex] lk == 2
+//@   ensures [fail-unchanged] ret != nil ==> logv == old(logv) && commits == old(commits)
+//@   ensures [one-commit] commits <= old(commits) + 1
+//@   ensures [chosen] ret == nil ==> readyMember(graph, chosen, epicID, "task")
+//@   ensures [oldest] ret == nil ==> (forall u *Task :: readyMember(graph, u, epicID, "task") ==> olderOrSame(chosen, u))
+//@   ensures [no-ready-iff-empty] graph != nil ==>
+//@        ((len(ready) == 0) <==> (forall u *Task :: !readyMember(graph, u, epicID, "task")))
+//@   ensures [no-ready-is-error] graph != nil && len(ready) == 0 ==> ret != nil && errMsgIs(ret, "no ready tasks")
+//@   ensures [events] ret == nil ==> len(appended) == 2 &&
+//@        appended[0].Type == "claim" && decOK_ClaimEvent(content(appended[0].Data)) &&
+//@        dec_ClaimEvent(content(appended[0].Data)).ID == chosen.ID && dec_ClaimEvent(content(appended[0].Data)).AgentID == agentID &&
+//@        appended[1].Type == "state" && decOK_StateEvent(content(appended[1].Data)) &&
+//@        dec_StateEvent(content(appended[1].Data)).ID == chosen.ID && dec_StateEvent(content(appended[1].Data)).NewState == "doing"
+//@   ensures [effect] ret == nil ==> effState(appended, chosen.ID, chosen.State) == "doing" &&
+//@        effClaim(appended, chosen.ID, chosen.ClaimedBy) == agentID
+//@   modifies cell chosen, cell now, ghost logv, ghost commits, ghost appended, ghost readEpoch
+
+// ---- output channel (C16) ----
+//@ ghost stdoutJSON int
+//@ ghost stdoutText int
+//@ ghost stderrText int
+//@ ghost otherText int
+//@ func writeJSON
+//@   trusted json.Encoder.Encode writes exactly one JSON value and a newline to w; callers pass os.Stdout; write faults on stdout are excluded
+//@   ensures [one-value] stdoutJSON == old(stdoutJSON) + 1
+//@   ensures [no-fault] ret == nil
+//@   modifies ghost stdoutJSON
+
+//@ func RunClaimOldestReady
+//@   requires [unlocked] lk == 0
+//@   ensures [released] lk == 0
+//@   ensures [never-blocks] blocking == old(blocking)
+//@   ensures [fail-unchanged] ret != nil ==> logv == old(logv)
+//@   ensures [one-commit] commits <= old(commits) + 1
+//@   ensures [json-one-value] opts.JSON && ret == nil ==> stdoutJSON == old(stdoutJSON) + 1 && stdoutText == old(stdoutText)
+//@   ensures [json-error-quiet] opts.JSON && ret != nil ==> stdoutJSON <= old(stdoutJSON) + 1 && stdoutText == old(stdoutText)
+//@   modifies ghost lk, ghost epoch, ghost blocking, ghost fsWrites, ghost logv, ghost commits, ghost appended, ghost readEpoch
+//@   modifies ghost stdoutJSON, ghost stdoutText, ghost stderrText
+
+// ---- the set path (C06, C10, C02) ----
+//@ func applySetUpdates$1
+//@   requires [ex] lk == 2
+//@   requires [updates] updates != nil
+//@   ensures [fail-unchanged] ret != nil ==> logv == old(logv) && commits == old(commits)
+//@   ensures [one-commit] commits <= old(commits) + 1
+//@   ensures [live-only] ret == nil ==> has(graph.Tasks, id) && !has(graph.Tombstones, id) && graph.Tasks[id] == task
+//@   ensures [transition] ret == nil && !task.IsEpic ==>
+//@        (effState(appended, id, task.State) == task.State || allowed(task.State, effState(appended, id, task.State)))
+//@   ensures [claim-inv] ret == nil && !task.IsEpic && validState(task.State) && claimInv(task.State, task.ClaimedBy) ==>
+//@        claimInv(effState(appended, id, task.State), effClaim(appended, id, task.ClaimedBy))
+//@   ensures [epic-untouched] ret == nil && task.IsEpic ==>
+//@        effState(appended, id, task.State) == task.State && effClaim(appended, id, task.ClaimedBy) == task.ClaimedBy
+//@   ensures [epic-exists] ret == nil && has(updates, "epic") && updates["epic"] != "" ==>
+//@        !task.IsEpic && has(graph.Tasks, updates["epic"]) && graph.Tasks[updates["epic"]].IsEpic
+//@   ensures [committed] ret == nil ==> commits == old(commits) + 1 && logv == old(logv) + 1
+//@   ensures [quiet] quiet ==> stdoutText == old(stdoutText)
+//@   modifies ghost logv, ghost commits, ghost appended, ghost readEpoch, ghost stdoutText
+//@ loop 0 range remainingUpdates
+//@   invariant [fresh] unknown == nil || fresh(unknown)
+
+// ---- dependency graph (C07) ----
+//@ spec vis(v map[string]bool, n string) bool = has(v, n) && v[n]
+//@ spec edge(g *Graph, f string, x string) bool = has(g.Deps, f) && has(g.Deps[f], x)
+//@ spec closedAt(g *Graph, v map[string]bool, n string) bool = forall m string :: edge(g, n, m) ==> vis(v, m)
+
+//@ func isReachable
+//@   requires [wf] graph != nil && visited != nil
+//@   requires [target-unvisited] !vis(visited, target)
+//@   ensures [target-out] !vis(visited, target)
+//@   ensures [mono] forall n string :: old(vis(visited, n)) ==> vis(visited, n)
+//@   ensures [start-visited] !ret ==> vis(visited, start)
+//@   ensures [closed] !ret ==> (forall n string :: vis(visited, n) && !old(vis(visited, n)) ==> closedAt(graph, visited, n))
+//@   modifies map[string]bool at visited
+//@ loop 0 range graph.Deps[start]
+//@   invariant [start] vis(visited, start) && start != target
+//@   invariant [target-out] !vis(visited, target)
+//@   invariant [mono] forall n string :: old(vis(visited, n)) ==> vis(visited, n)
+//@   invariant [deps-done] forall m string :: visited(m) ==> vis(visited, m)
+//@   invariant [closed] forall n string :: vis(visited, n) && !old(vis(visited, n)) && n != start ==> closedAt(graph, visited, n)
+
+//@ func hasCycle
+//@   requires [wf] graph != nil
+//@   ensures [closed-set] !ret ==> from != to && vis(visited, to) && !vis(visited, from) &&
+//@        (forall n string :: vis(visited, n) ==> closedAt(graph, visited, n))
+//@   ensures [fresh-witness] !ret ==> fresh(visited)
+//@   modifies nothing
+
+// Acyclicity as a well-founded ranking: rankOf is an arbitrary (uninterpreted) function; a graph is acyclic iff
+// some rank strictly decreases along every edge. Writers show: if rankOf ranks the graph they read, an explicit
+// re-ranking ranks the graph extended by the edge they append.
+//@ ufun rankOf(n string) int
+//@ trusted arbitrary function: every statement about it holds for all rankings
+//@ spec ranked(g *Graph) bool = forall f string, x string :: edge(g, f, x) ==> rankOf(f) > rankOf(x)
+//@ spec absDiff(a int, b int) int = ite(a < b, b - a, a - b)
+//@ spec rerank(v map[string]bool, n string, k int) int = ite(vis(v, n), rankOf(n) - k, rankOf(n))
+
+//@ func writeLinkEvent$1
+//@   requires [ex] lk == 2
+//@   ensures [fail-unchanged] ret != nil ==> logv == old(logv) && commits == old(commits)
+//@   ensures [one-commit] commits <= old(commits) + 1
+//@   ensures [committed] ret == nil ==> commits == old(commits) + 1 && logv == old(logv) + 1
+//@   ensures [checked] ret == nil ==> has(graph.Tasks, from) && has(graph.Tasks, to) &&
+//@        !has(graph.Tombstones, from) && !has(graph.Tombstones, to) && from != to &&
+//@        graph.Tasks[from].IsEpic == graph.Tasks[to].IsEpic
+//@   ensures [event] ret == nil ==> len(appended) == 1 && appended[0].Type == eventType &&
+//@        decOK_LinkEvent(content(appended[0].Data)) &&
+//@        dec_LinkEvent(content(appended[0].Data)).FromID == from && dec_LinkEvent(content(appended[0].Data)).ToID == to &&
+//@        dec_LinkEvent(content(appended[0].Data)).Type == "depends"
+//@   ensures [acyclic-step] ret == nil && eventType == "link" && ranked(graph) ==>
+//@        (forall f string, x string :: edge(graph, f, x) || (f == from && x == to) ==>
+//@            rerank(hasCycle_visited, f, absDiff(rankOf(to), rankOf(from)) + 1) > rerank(hasCycle_visited, x, absDiff(rankOf(to), rankOf(from)) + 1))
+//@   modifies ghost logv, ghost commits, ghost appended, ghost readEpoch
+
+//@ spec sectionFrame() bool = lk == 0 && blocking == old(blocking)
+
+//@ func writeLinkEvent
+//@   requires [unlocked] lk == 0
+//@   ensures [released] lk == 0
+//@   ensures [never-blocks] blocking == old(blocking)
+//@   ensures [fail-unchanged] ret != nil ==> logv == old(logv) && commits == old(commits)
+//@   ensures [one-commit] commits <= old(commits) + 1
+//@   ensures [committed] ret == nil ==> commits == old(commits) + 1 && logv == old(logv) + 1
+//@   modifies ghost lk, ghost epoch, ghost blocking, ghost fsWrites, ghost logv, ghost commits, ghost appended, ghost readEpoch
+
+//@ func buildSequenceEdges
+//@   ensures [count] len(order) >= 2 ==> len(ret) == len(order) - 1
+//@   ensures [short] len(order) < 2 ==> len(ret) == 0
+//@   ensures [chain] forall i int :: 0 <= i && i < len(ret) ==> ret[i].FromID == order[i+1] && ret[i].ToID == order[i]
+//@   modifies nothing
+//@ loop 0 for i
+//@   invariant [bounds] 0 <= i && i <= len(order) - 1 && len(edges) == i && fresh(edges) && cap(edges) >= len(order) - 1
+//@   invariant [chain] forall k int :: 0 <= k && k < i ==> edges[k].FromID == order[k+1] && edges[k].ToID == order[k]
+
+//@ func RunSequence
+//@   requires [unlocked] lk == 0
+//@   ensures [released] lk == 0
+//@   ensures [never-blocks] blocking == old(blocking)
+//@   ensures [fail-unchanged] ret != nil ==> logv == old(logv)
+//@   ensures [one-commit] commits <= old(commits) + 1
+//@   canary  [second-edge-fails] !(ret != nil && commits == old(commits) + 1)
+//@   canary  [two-commits] !(ret == nil && commits == old(commits) + 2)
+//@   ensures [json-one-value] opts.JSON && ret == nil ==> stdoutJSON == old(stdoutJSON) + 1 && stdoutText == old(stdoutText)
+//@   ensures [json-error-quiet] opts.JSON && ret != nil ==> stdoutJSON == old(stdoutJSON) && stdoutText == old(stdoutText)
+//@   modifies ghost lk, ghost epoch, ghost blocking, ghost fsWrites, ghost logv, ghost commits, ghost appended, ghost readEpoch
+//@   modifies ghost stdoutJSON, ghost stdoutText, ghost stderrText
+//@ loop 0 range edges
+//@   invariant [progress] lk == 0 && blocking == old(blocking) && commits == old(commits) + index && logv == old(logv) + index && index <= len(edges)
+//@   invariant [quiet] stdoutJSON == old(stdoutJSON) && stdoutText == old(stdoutText)
+//@ loop 1 range edges
+//@   invariant [state] lk == 0 && blocking == old(blocking) && commits == old(commits) + len(edges) && logv == old(logv) + len(edges)
+//@   invariant [quiet] stdoutJSON == old(stdoutJSON) && stdoutText == old(stdoutText)
+//@   invariant [fresh] fresh(outEdges)
+
+// ---- creation (C09 id freshness, C14 epic references, C10, C02) ----
+//@ func shortID
+//@   trusted crypto/rand + base32: returns some string or an error
+//@   ensures [true] true
+//@   modifies nothing
+//@ func newUUID
+//@   trusted crypto/rand + fmt.Sprintf: returns some string or an error
+//@   ensures [true] true
+//@   modifies nothing
+
+//@ func newShortID
+//@   ensures [fresh] err == nil ==> !has(existing, ret0) && !has(pruned, ret0)
+//@   modifies nothing
+//@ loop 0 for i
+//@   invariant [true] true
+
+//@ func createTaskWithDir$1
+//@   requires [ex] lk == 2
+//@   ensures [fail-unchanged] ret != nil ==> logv == old(logv) && commits == old(commits)
+//@   ensures [one-commit] commits <= old(commits) + 1
+//@   ensures [committed] ret == nil ==> commits == old(commits) + 1 && logv == old(logv) + 1
+//@   ensures [fresh-id] ret == nil ==> !has(graph.Tasks, id)
+//@   ensures [fresh-vs-tombstones] ret == nil ==> !has(graph.Tombstones, id)
+//@   ensures [parent-is-epic] ret == nil && !isEpic && epicID != "" ==>
+//@        has(graph.Tasks, epicID) && graph.Tasks[epicID].IsEpic
+//@   ensures [event] ret == nil ==> len(appended) == 1 &&
+//@        appended[0].Type == ite(isEpic, "new_epic", "new_task") && decOK_NewTaskEvent(content(appended[0].Data)) &&
+//@        dec_NewTaskEvent(content(appended[0].Data)).ID == id &&
+//@        dec_NewTaskEvent(content(appended[0].Data)).State == "todo" &&
+//@        dec_NewTaskEvent(content(appended[0].Data)).EpicID == ite(isEpic, "", epicID) &&
+//@        dec_NewTaskEvent(content(appended[0].Data)).Title == title &&
+//@        dec_NewTaskEvent(content(appended[0].Data)).Body == body
+//@   ensures [reply-is-truth] ret == nil ==> output.ID == id && output.State == "todo" && output.Title == title && output.Body == body &&
+//@        output.EpicID == ite(isEpic, "", epicID) && output.Kind == ite(isEpic, "epic", "task")
+//@   modifies cell output, ghost logv, ghost commits, ghost appended, ghost readEpoch
+
+//@ func createTaskWithDir
+//@   requires [unlocked] lk == 0
+//@   ensures [released] lk == 0
+//@   ensures [never-blocks] blocking == old(blocking)
+//@   ensures [fail-unchanged] err != nil ==> logv == old(logv) && commits == old(commits)
+//@   ensures [one-commit] commits <= old(commits) + 1
+//@   ensures [committed] err == nil ==> commits == old(commits) + 1 && logv == old(logv) + 1
+//@   ensures [reply] err == nil ==> ret0.State == "todo" && ret0.Title == title && ret0.Body == body
+//@   ensures [quiet] stdoutJSON == old(stdoutJSON) && stdoutText == old(stdoutText)
+//@   modifies ghost lk, ghost epoch, ghost blocking, ghost fsWrites, ghost logv, ghost commits, ghost appended, ghost readEpoch
+//@ func createTask
+//@   requires [unlocked] lk == 0
+//@   ensures [released] lk == 0
+//@   ensures [never-blocks] blocking == old(blocking)
+//@   ensures [fail-unchanged] err != nil ==> logv == old(logv) && commits == old(commits)
+//@   ensures [one-commit] commits <= old(commits) + 1
+//@   ensures [committed] err == nil ==> commits == old(commits) + 1 && logv == old(logv) + 1
+//@   ensures [reply] err == nil ==> ret0.State == "todo" && ret0.Title == title && ret0.Body == body
+//@   ensures [quiet] stdoutJSON == old(stdoutJSON) && stdoutText == old(stdoutText)
+//@   modifies ghost lk, ghost epoch, ghost blocking, ghost fsWrites, ghost logv, ghost commits, ghost appended, ghost readEpoch
+
+// ---- prune (C09, C02, C10) ----
+//@ func buildPruneItems
+//@   requires [wf] graph != nil ==> wfGraph(graph)
+//@   ensures [true] true
+//@   modifies nothing
+//@ loop 0 range ids
+//@   invariant [fresh] fresh(items)
+//@ func buildTombstoneEvents
+//@   ensures [count] err == nil ==> len(ret0) == len(ids)
+//@   ensures [each] err == nil ==> (forall i int :: 0 <= i && i < len(ids) ==> ret0[i].Type == "tombstone" &&
+//@        decOK_TombstoneEvent(content(ret0[i].Data)) && dec_TombstoneEvent(content(ret0[i].Data)).ID == ids[i])
+//@   modifies nothing
+//@ loop 0 range ids
+//@   invariant [built] len(events) == index && fresh(events) && cap(events) >= len(ids) && index <= len(ids)
+//@   invariant [each] forall i int :: 0 <= i && i < index ==> events[i].Type == "tombstone" && allocated(events[i].Data) &&
+//@        decOK_TombstoneEvent(content(events[i].Data)) && dec_TombstoneEvent(content(events[i].Data)).ID == ids[i]
+//@ func buildPrunePlan
+//@   requires [wf] graph != nil ==> wfGraph(graph) && wfIDs(graph)
+//@   ensures [exact-policy] graph != nil ==> (forall id string :: contains(ret.PrunedIDs, id) <==> pruneEligible(graph, id))
+//@   modifies nothing
+//@ func runPrune$1
+//@   requires [ex] lk == 2
+//@   ensures [fail-unchanged] ret != nil ==> logv == old(logv) && commits == old(commits)
+//@   ensures [one-commit] commits <= old(commits) + 1
+//@   ensures [dry-run-pure] !apply ==> logv == old(logv) && commits == old(commits)
+//@   ensures [plan-is-policy] ret == nil ==> (forall id string :: contains(plan.PrunedIDs, id) <==> pruneEligible(graph, id))
+//@   ensures [apply-equals-plan] ret == nil && apply && len(plan.PrunedIDs) > 0 ==> len(appended) == len(plan.PrunedIDs) &&
+//@        (forall i int :: 0 <= i && i < len(plan.PrunedIDs) ==> appended[i].Type == "tombstone" &&
+//@           decOK_TombstoneEvent(content(appended[i].Data)) && dec_TombstoneEvent(content(appended[i].Data)).ID == plan.PrunedIDs[i])
+//@   modifies cell plan, ghost logv, ghost commits, ghost appended, ghost readEpoch
+//@ func runPrune
+//@   requires [unlocked] lk == 0
+//@   ensures [released] lk == 0
+//@   ensures [never-blocks] blocking == old(blocking)
+//@   ensures [fail-unchanged] err != nil ==> logv == old(logv) && commits == old(commits)
+//@   ensures [one-commit] commits <= old(commits) + 1
+//@   ensures [dry-run-pure] !apply ==> logv == old(logv) && commits == old(commits)
+//@   ensures [quiet] stdoutJSON == old(stdoutJSON) && stdoutText == old(stdoutText)
+//@   modifies ghost lk, ghost epoch, ghost blocking, ghost fsWrites, ghost logv, ghost commits, ghost appended, ghost readEpoch
+
+// ---- results (C20, C10, C02) ----
+//@ func validateResultPath
+//@   trusted lexical path confinement + os.Stat (string algebra; see the bounded stand-in of C20)
+//@   ensures [true] true
+//@   modifies nothing
+//@ func captureResultEvidence
+//@   trusted reads the file, hashes it (sha256), stats it, reads .git/HEAD
+//@   ensures [true] true
+//@   modifies nothing
+//@ func writeResultEvent$1
+//@   requires [ex] lk == 2
+//@   ensures [fail-unchanged] ret != nil ==> logv == old(logv) && commits == old(commits)
+//@   ensures [one-commit] commits <= old(commits) + 1
+//@   ensures [committed] ret == nil ==> commits == old(commits) + 1 && logv == old(logv) + 1
+//@   ensures [live-task-only] ret == nil ==> has(graph.Tasks, taskID) && !has(graph.Tombstones, taskID) && !graph.Tasks[taskID].IsEpic
+//@   ensures [event] ret == nil ==> len(appended) == 1 && appended[0].Type == "result" &&
+//@        decOK_ResultEvent(content(appended[0].Data)) &&
+//@        dec_ResultEvent(content(appended[0].Data)).TaskID == taskID &&
+//@        dec_ResultEvent(content(appended[0].Data)).Path == cleanPath &&
+//@        dec_ResultEvent(content(appended[0].Data)).Sha256AtAttach == evidence.Sha256AtAttach &&
+//@        dec_ResultEvent(content(appended[0].Data)).MtimeAtAttach == evidence.MtimeAtAttach &&
+//@        dec_ResultEvent(content(appended[0].Data)).GitCommitAtAttach == evidence.GitCommitAtAttach &&
+//@        dec_ResultEvent(content(appended[0].Data)).Summary == trimSpace(summary)
+//@   modifies ghost logv, ghost commits, ghost appended, ghost readEpoch
+//@ func writeResultEvent
+//@   requires [unlocked] lk == 0
+//@   ensures [released] lk == 0
+//@   ensures [never-blocks] blocking == old(blocking)
+//@   ensures [fail-unchanged] ret != nil ==> logv == old(logv) && commits == old(commits)
+//@   ensures [one-commit] commits <= old(commits) + 1
+//@   ensures [committed] ret == nil ==> commits == old(commits) + 1 && logv == old(logv) + 1
+//@   ensures [quiet] stdoutJSON == old(stdoutJSON) && stdoutText == old(stdoutText)
+//@   modifies ghost lk, ghost epoch, ghost blocking, ghost fsWrites, ghost logv, ghost commits, ghost appended, ghost readEpoch
+
+//@ func applySetUpdates
+//@   requires [unlocked] lk == 0
+//@   requires [updates] updates != nil
+//@   ensures [released] lk == 0
+//@   ensures [never-blocks] blocking == old(blocking)
+//@   ensures [fail-unchanged] ret != nil ==> logv == old(logv) && commits == old(commits)
+//@   ensures [one-commit] commits <= old(commits) + 1
+//@   ensures [json-quiet] quiet ==> stdoutText == old(stdoutText)
+//@   ensures [no-json] stdoutJSON == old(stdoutJSON)
+//@   ensures [version-tracks-commits] logv - old(logv) == commits - old(commits) && commits >= old(commits)
+//@   modifies ghost lk, ghost epoch, ghost blocking, ghost fsWrites, ghost logv, ghost commits, ghost appended, ghost readEpoch
+//@   modifies ghost stdoutText, map[string]string at updates
+
+// ---- rewrite primitives and compaction (C05, C02) ----
+//@ func replaceEventsAtomically
+//@   trusted writes a temp file, fsyncs, renames over the log, fsyncs the directory; I/O faults excluded
+//@   requires [ex] lk == 2
+//@   requires [same-epoch] readEpoch == epoch
+//@   ensures [ok] ret == nil ==> logv == old(logv) + 1 && commits == old(commits) + 1 && appended == events
+//@   ensures [fail] ret != nil ==> logv == old(logv) && commits == old(commits) && appended == old(appended)
+//@   modifies ghost logv, ghost commits, ghost appended
+//@ func appendEventsAtomically
+//@   requires [ex] lk == 2
+//@   requires [same-epoch] readEpoch == epoch
+//@   ensures [fail] ret != nil ==> logv == old(logv) && commits == old(commits)
+//@   ensures [one-commit] commits <= old(commits) + 1
+//@   modifies ghost logv, ghost commits, ghost appended
+
+//@ func compactEvents
+//@   trusted (for the lock protocol only) the round-trip contract of compaction is the subject of C05
+//@   requires [wf] wfMaps(graph)
+//@   ensures [true] true
+//@   modifies nothing
+//@ func RunCompact$1
+//@   requires [ex] lk == 2
+//@   ensures [fail-unchanged] ret != nil ==> logv == old(logv) && commits == old(commits)
+//@   ensures [one-commit] commits <= old(commits) + 1
+//@   ensures [writes-what-it-compacted] ret == nil ==> appended == compacted
+//@   modifies ghost logv, ghost commits, ghost appended, ghost readEpoch
+//@ func RunCompact
+//@   requires [unlocked] lk == 0
+//@   ensures [released] lk == 0
+//@   ensures [never-blocks] blocking == old(blocking)
+//@   ensures [fail-unchanged] ret != nil ==> logv == old(logv) && commits == old(commits)
+//@   ensures [one-commit] commits <= old(commits) + 1
+//@   ensures [json-one-value] opts.JSON && ret == nil ==> stdoutJSON == old(stdoutJSON) + 1 && stdoutText == old(stdoutText)
+//@   ensures [json-error-quiet] opts.JSON && ret != nil ==> stdoutJSON == old(stdoutJSON) && stdoutText == old(stdoutText)
+//@   modifies ghost lk, ghost epoch, ghost blocking, ghost fsWrites, ghost logv, ghost commits, ghost appended, ghost readEpoch
+//@   modifies ghost stdoutJSON, ghost stdoutText, ghost stderrText
+
+// ---- command entry points (C02, C10, C16) ----
+// Input helpers touch stdin only; their parsing logic is not interpreted here.
+//@ func stdinIsPiped
+//@   trusted os.Stdin.Stat
+//@   ensures [true] true
+//@   modifies nothing
+//@ func stdoutIsTTY
+//@   trusted os.Stdout.Stat
+//@   ensures [true] true
+//@   modifies nothing
+//@ func readBodyFromStdinOrEmpty
+//@   trusted io.ReadAll(os.Stdin)
+//@   ensures [true] true
+//@   modifies nothing
+//@ func ParseTaskInput
+//@   trusted strict JSON decoding of stdin (encoding/json, DisallowUnknownFields, single value)
+//@   ensures [one-of] (ret0 == nil) != (ret1 == nil)
+//@   ensures [fresh] ret0 != nil ==> fresh(ret0)
+//@   modifies nothing
+//@ func (*ValidationError).GoError
+//@   requires [recv] e != nil
+//@   ensures [non-nil] ret != nil
+//@   modifies nothing
+//@ loop 0 range e.Invalid
+//@   invariant [fresh] fresh(parts)
+//@ func (*TaskInput).validate
+//@   requires [recv] t != nil
+//@   ensures [valid-state] ret == nil && t.State != nil ==> validState(deref(t.State))
+//@   modifies nothing
+
+//@ func claimedAtForTask
+//@   ensures [true] true
+//@   modifies nothing
+//@ func RunClaim
+//@   requires [unlocked] lk == 0
+//@   ensures [released] lk == 0
+//@   ensures [never-blocks] blocking == old(blocking)
+//@   ensures [fail-unchanged] ret != nil ==> logv == old(logv)
+//@   ensures [one-commit] commits <= old(commits) + 1
+//@   ensures [json-one-value] opts.JSON && ret == nil ==> stdoutJSON == old(stdoutJSON) + 1 && stdoutText == old(stdoutText)
+//@   ensures [json-error-quiet] opts.JSON && ret != nil ==> stdoutJSON == old(stdoutJSON) && stdoutText == old(stdoutText)
+//@   modifies ghost lk, ghost epoch, ghost blocking, ghost fsWrites, ghost logv, ghost commits, ghost appended, ghost readEpoch
+//@   modifies ghost stdoutJSON, ghost stdoutText, ghost stderrText
+
+//@ func RunSet
+//@   requires [unlocked] lk == 0
+//@   ensures [released] lk == 0
+//@   ensures [never-blocks] blocking == old(blocking)
+//@   ensures [fail-unchanged] ret != nil ==> logv == old(logv)
+//@   ensures [one-commit] commits <= old(commits) + 1
+//@   ensures [json-one-value] opts.JSON && ret == nil ==> stdoutJSON == old(stdoutJSON) + 1 && stdoutText == old(stdoutText)
+//@   ensures [json-error-at-most-one] opts.JSON && ret != nil ==> stdoutJSON <= old(stdoutJSON) + 1 && stdoutText == old(stdoutText)
+//@   modifies ghost lk, ghost epoch, ghost blocking, ghost fsWrites, ghost logv, ghost commits, ghost appended, ghost readEpoch
+//@   modifies ghost stdoutJSON, ghost stdoutText, ghost stderrText
+
+//@ func RunNewEpic
+//@   requires [unlocked] lk == 0
+//@   ensures [released] lk == 0
+//@   ensures [never-blocks] blocking == old(blocking)
+//@   ensures [fail-unchanged] ret != nil ==> logv == old(logv)
+//@   ensures [one-commit] commits <= old(commits) + 1
+//@   ensures [json-one-value] opts.JSON && ret == nil ==> stdoutJSON == old(stdoutJSON) + 1 && stdoutText == old(stdoutText)
+//@   ensures [json-error-at-most-one] opts.JSON && ret != nil ==> stdoutJSON <= old(stdoutJSON) + 1 && stdoutText == old(stdoutText)
+//@   modifies ghost lk, ghost epoch, ghost blocking, ghost fsWrites, ghost logv, ghost commits, ghost appended, ghost readEpoch
+//@   modifies ghost stdoutJSON, ghost stdoutText, ghost stderrText
+
+//@ func RunNewTask
+//@   requires [unlocked] lk == 0
+//@   ensures [released] lk == 0
+//@   ensures [never-blocks] blocking == old(blocking)
+//@   ensures [fail-unchanged] ret != nil ==> logv == old(logv)
+//@   ensures [one-commit] commits <= old(commits) + 1
+//@   ensures [json-one-value] opts.JSON && ret == nil ==> stdoutJSON == old(stdoutJSON) + 1 && stdoutText == old(stdoutText)
+//@   ensures [json-error-at-most-one] opts.JSON && ret != nil ==> stdoutJSON <= old(stdoutJSON) + 1 && stdoutText == old(stdoutText)
+//@   modifies ghost lk, ghost epoch, ghost blocking, ghost fsWrites, ghost logv, ghost commits, ghost appended, ghost readEpoch
+//@   modifies ghost stdoutJSON, ghost stdoutText, ghost stderrText
+
+//@ func (*TaskInput).ToKeyValueMap
+//@   requires [recv] t != nil
+//@   ensures [fresh] ret != nil && fresh(ret)
+//@   ensures [state] has(ret, "state") <==> t.State != nil
+//@   ensures [claim] has(ret, "claim") <==> t.Claim != nil
+//@   ensures [result] has(ret, "result.path") <==> t.ResultPath != nil
+//@   modifies nothing
+//@ func buildUpdatedFields
+//@   ensures [true] true
+//@   modifies nothing
+
+// Rendering helpers write human text to stdout only (their layout is the subject of C19).
+//@ func printPruneSummary
+//@   trusted writes human-readable text to stdout
+//@   ensures [no-json] stdoutJSON == old(stdoutJSON)
+//@   modifies ghost stdoutText
+//@ func printTaskDetails
+//@   trusted writes human-readable text to stdout
+//@   ensures [no-json] stdoutJSON == old(stdoutJSON)
+//@   modifies ghost stdoutText
+//@ func printEpicDetails
+//@   trusted writes human-readable text to stdout
+//@   ensures [no-json] stdoutJSON == old(stdoutJSON)
+//@   modifies ghost stdoutText
+//@ func renderTreeView
+//@   trusted writes human-readable text to the given writer (stdout at every call site)
+//@   ensures [no-json] stdoutJSON == old(stdoutJSON)
+//@   modifies ghost stdoutText
+//@ func renderSummary
+//@   trusted writes human-readable text to the given writer (stdout at every call site)
+//@   ensures [no-json] stdoutJSON == old(stdoutJSON)
+//@   modifies ghost stdoutText
+//@ func collectEpicChildren
+//@   trusted pure function of the graph (topological order of an epic's children); elements are tasks of the graph
+//@   requires [wf] wfMaps(graph)
+//@   ensures [nonnil] forall i int :: 0 <= i && i < len(ret) ==> ret[i] != nil
+//@   modifies nothing
+//@ func buildTaskShowOutput
+//@   trusted pure projection of a task to its JSON form (see C05/C17 for its content)
+//@   ensures [true] true
+//@   modifies nothing
+//@ func RunPrunePlan
+//@   requires [unlocked] lk == 0
+//@   ensures [released] lk == 0
+//@   ensures [never-blocks] blocking == old(blocking)
+//@   ensures [read-pure] logv == old(logv) && commits == old(commits)
+//@   ensures [quiet] stdoutJSON == old(stdoutJSON) && stdoutText == old(stdoutText)
+//@   modifies ghost lk, ghost epoch, ghost blocking, ghost fsWrites, ghost logv, ghost commits, ghost appended, ghost readEpoch
+//@ func RunPruneApply
+//@   requires [unlocked] lk == 0
+//@   ensures [released] lk == 0
+//@   ensures [never-blocks] blocking == old(blocking)
+//@   ensures [fail-unchanged] err != nil ==> logv == old(logv) && commits == old(commits)
+//@   ensures [one-commit] commits <= old(commits) + 1
+//@   ensures [quiet] stdoutJSON == old(stdoutJSON) && stdoutText == old(stdoutText)
+//@   modifies ghost lk, ghost epoch, ghost blocking, ghost fsWrites, ghost logv, ghost commits, ghost appended, ghost readEpoch
+//@ func RunPrune
+//@   requires [unlocked] lk == 0
+//@   ensures [released] lk == 0
+//@   ensures [never-blocks] blocking == old(blocking)
+//@   ensures [fail-unchanged] ret != nil ==> logv == old(logv)
+//@   ensures [one-commit] commits <= old(commits) + 1
+//@   ensures [dry-run-pure] !confirm ==> logv == old(logv) && commits == old(commits)
+//@   ensures [json-one-value] opts.JSON && ret == nil ==> stdoutJSON == old(stdoutJSON) + 1 && stdoutText == old(stdoutText)
+//@   ensures [json-error-quiet] opts.JSON && ret != nil ==> stdoutJSON == old(stdoutJSON) && stdoutText == old(stdoutText)
+//@   modifies ghost lk, ghost epoch, ghost blocking, ghost fsWrites, ghost logv, ghost commits, ghost appended, ghost readEpoch
+//@   modifies ghost stdoutJSON, ghost stdoutText, ghost stderrText
+//@ func RunShow
+//@   requires [unlocked] lk == 0
+//@   ensures [read-pure] logv == old(logv) && commits == old(commits) && lk == 0 && fsWrites == old(fsWrites)
+//@   ensures [json-one-value] opts.JSON && ret == nil ==> stdoutJSON == old(stdoutJSON) + 1 && stdoutText == old(stdoutText)
+//@   ensures [json-error-quiet] opts.JSON && ret != nil ==> stdoutJSON == old(stdoutJSON) && stdoutText == old(stdoutText)
+//@   modifies ghost readEpoch, ghost stdoutJSON, ghost stdoutText, ghost stderrText
+//@ func RunInit
+//@   ensures [no-log-primitive] logv == old(logv) && commits == old(commits)
+//@   ensures [json-one-value] opts.JSON && ret == nil ==> stdoutJSON == old(stdoutJSON) + 1 && stdoutText == old(stdoutText)
+//@   modifies ghost fsWrites, ghost stdoutJSON, ghost stdoutText, ghost stderrText
